@@ -14,3 +14,5 @@ Definition order_flags (m : ometh) : bool * bool := match m with MBare => (false
 Definition rows_kind : string := "ROWS".
 Definition range_kind : string := "RANGE".
 Definition window_bare_key_is_spark_default : bool := true.
+Definition part_replaces : bool := true.
+Definition order_replaces : bool := true.
